@@ -109,7 +109,8 @@ class Bench:
     def _dry(self, c):
         self.prepare(c)
         o = mgr.handle_line(self.proto, self.reqs[c])
-        assert o.reply() and o.reply().get("errorcode") == 0, (c, o.raw)
+        # (if the fault-free run does not succeed the steps seen so far are used; the fault-free cell itself is
+        # produced and judged with the others: kind "none" allows only code 0)
         return [step_kind(c, e["apdu"]) for e in self.world.log if e["ev"] == "apdu"]
 
     def run(self, c, idx, fault):
